@@ -6,6 +6,7 @@
 import Djc.Proofs.Render
 import Djc.Proofs.Plain
 import Djc.Proofs.LeafSpec
+import Djc.Proofs.Slotty
 import Djc.Spec.Render
 namespace Djc.Props.C03
 open Djc.Tpl Djc.Render Djc.Proofs.Render
@@ -236,6 +237,45 @@ theorem leaf_component_isolated_noninterference (env : Env) (i : Nat) (name : St
         hsteps hgcd hext1 hpar1 hprov hf1 hf2 hf3 hf4 hc1 hok1,
       Djc.Proofs.Leaf.leaf_component env i name kwargs only dyn ctx2 (isolatedCopy ctx2) w d toks2 st2 hctx2 hr hd hdyn hp hsrc
         hsteps hgcd hext2 hpar2 hprov hf1 hf2 hf3 hf4 hc2 hok2, ht]
+
+/-- **Isolated mode, one component whose template has slots (no fills given)**: default content of a slot is rendered
+in the component's own context — data and built-ins only — and the model of the code agrees with the reading through the
+whole deferred pipeline.  Contexts without for-loop layers; all worlds, keyword arguments, templates of the slot
+fragment with usable names. -/
+theorem leaf_component_with_slots_isolated (env : Env) (i : Nat) (name : Str) (kwargs : List (Str × Expr))
+    (only dyn : Bool) (ctx : Ctx) (w : World) (e : Djc.SpecRender.SEnv) (s : Djc.SpecRender.SState) (d : CompDef)
+    (toks : List Tok) (st : Nat)
+    (hiso : (only || env.isolated) = true)
+    (h0 : hasL forloopKey (ctx.headD []) = false) (hloop : ∀ l ∈ ctx, hasL forloopKey l = false)
+    (hr : env.raiseAt = none) (hd : findDef env name = some d) (hdyn : isDynName name = false)
+    (hp : Djc.Proofs.Slotty.slottyL d.template = true) (ho : Djc.Proofs.Slotty.okSL d.template = true)
+    (hsrc : d.data.all (fun kv => Djc.Proofs.Leaf.pureSrc kv.2) = true)
+    (hsteps : ¬ w.steps ≥ env.maxSteps) (hgcd : w.gcds < env.maxInst) (hext : isExtracting ctx = false)
+    (hpar : ∀ p, ctxGet (isolatedCopy ctx) compKey ≠ some (.compRef p)) (hout : ctxGet (snapshot ctx) compKey = none)
+    (hprov : w.provideCache = [])
+    (hf1 : alGet w.nextId w.ctxCache = none) (hf2 : alGet w.nextId w.rendererCache = none)
+    (hf3 : alGet w.nextId w.childAttrs = none) (hf4 : w.allRefIds.contains w.nextId = false)
+    (hc : Djc.Proofs.Plain.ctxFree (Djc.Proofs.Leaf.leafCtx (isolatedCopy ctx) w.nextId (evalKwargs ctx kwargs) d) = true)
+    (hfg : ctxGet (Djc.Proofs.Leaf.leafCtx (isolatedCopy ctx) w.nextId (evalKwargs ctx kwargs) d) fillGenKey = none)
+    (hok : Djc.Proofs.Slotty.qNodes true env.maxSteps (i + 1) d.template
+      (Djc.Proofs.Leaf.leafCtx (isolatedCopy ctx) w.nextId (evalKwargs ctx kwargs) d) (w.steps + 1) = (.ok toks, st))
+    (he : e.vars = ctx) (hsid : s.nextId = w.nextId) (hss : s.steps = w.steps) (hidle : ¬ s.nextId > env.maxInst)
+    (hc2 : Djc.Proofs.Plain.ctxFree (Djc.Proofs.LeafSpec.specVars true ctx w.nextId (evalKwargs ctx kwargs) d) = true) :
+    ((renderNode env (i + 6) (.comp name kwargs only dyn []) ctx).run.run w).1 =
+        .ok (.marker name w.nextId :: addRootAttrs [idAttr w.nextId] toks) ∧
+      ∃ s', (Djc.SpecRender.sNode env (i + 6) (.comp name kwargs only dyn []) e).run s =
+        .ok (.marker name w.nextId :: addRootAttrs [idAttr w.nextId] toks, s') := by
+  have hctx' : isolatedCopy ctx = if only || env.isolated then isolatedCopy ctx else ctx := by rw [hiso]; rfl
+  have hbase : ∀ k, Djc.Proofs.Calm.internal k = false →
+      ctxGet (isolatedCopy ctx) k = ctxGet (if only || env.isolated then [[]] else ctx) k := by
+    intro k hk
+    obtain ⟨a, b, c, dd⟩ := usable_name_facts k hk
+    rw [hiso, isolated_copy_hides ctx k a b c dd h0 (fun l hl hf => by rw [hloop l hl] at hf; cases hf)]
+    rfl
+  obtain ⟨h1, s', h2, _⟩ := Djc.Proofs.Slotty.leaf_slotty_model_eq_spec env i name kwargs only dyn ctx (isolatedCopy ctx)
+    w e s d toks st hctx' hr hd hdyn hp ho hsrc hsteps hgcd hext hpar hout hprov hf1 hf2 hf3 hf4 hc hfg hok he hsid hss hidle
+    (by rw [hiso]; exact hc2) hbase
+  exact ⟨h1, s', h2⟩
 
 /-- The property at full strength for the model of the code: in isolated mode the tokens of a page
 holding one component tag with literal arguments do not depend on the page's variables.  OPEN, and
